@@ -477,7 +477,7 @@ func vfGenC10(r *vfRand, id int) *vfWorldCase {
 	case 2:
 		cfg.Templates = []vfTemplate{{"X-Email-Copy", "{{.Claims.email}}"}, {"X-Deep", "{{.Claims.realm.roles}}"}, {"X-Tok", "Bearer {{.AccessToken}}"}}
 	case 3:
-		cfg.Templates = []vfTemplate{{"X-User-Groups", "{{index .Claims.groups 0}}"}, {"X-Fail", "{{.Claims.missing.deeper}}"}}
+		cfg.Templates = []vfTemplate{{"X-First-Group", "{{index .Claims.groups 0}}"}, {"X-Fail", "{{.Claims.missing.deeper}}"}}
 	}
 	cs := &vfWorldCase{ID: id, Kind: "identity-headers", Script: vfScript{Cfg: cfg, Browsers: 1}}
 	t := vfPlainTok("user@example.com", 3600)
